@@ -137,6 +137,12 @@ Print Assumptions Blocks_lines_lf_terminated.
    scanners stay inside the string, the byte-mode advance after a scanner match re-establishes CI, the cursor side
    of the code-fence / ATX / multiline-block-quote / footnote / description-item openers, and the fuel of
    advance_offset, row, table::matches.
+   Fourth round (end of this file, Proofs/BlocksTotal4*.v): the CURSOR sites are done for the whole parse
+   (Blocks_total_partial_cursor_sites: 65 sites, every input, every option set; with the tree sites:
+   Blocks_total_partial_sites_all), table.rs row / matches are total, the fuel of every loop except
+   open_new_blocks_loop is bounded, and the candidate open-spine invariant below was evaluated and found FALSE
+   (corrected version: Blocks_total_spine_corrected_on_corpus).  The list REMAINING that is up to date is in the
+   comment of the fourth round; the one below is the state after the third round.
    REMAINING for the full statement (no whole-parse theorem yet):
      open-spine sites   mod.rs:finalize_borrowed:assert!(ast.open), mod.rs:add_line:assert!(ast.open),
                         mod.rs:add_text_to_container:self.finalize(self.current).unwrap(),
@@ -518,3 +524,327 @@ Print Assumptions Blocks_total_partial_fuel_row.
 Theorem Blocks_total_partial_fuel_table_matches : forall s sp, table_matches s sp <> OutOfFuel.
 Proof. exact BlocksTotal3Cur.table_matches_fuel. Qed.
 Print Assumptions Blocks_total_partial_fuel_table_matches.
+
+(* ---- totality, fourth round (Proofs/BlocksTotal4*.v).
+   Step 1 (Proofs/BlocksTotal4Safe.v): the predicate transformer is parametric in the set of allowed Panic sites and
+   in the fuel: `sg al fu Q r` (r = Ok a -> Q a; r = Panic s -> al s = true; r = OutOfFuel -> fu = true), `but L`
+   allows every site except those of L, `only L` exactly those of L.  `safe` of the second round is
+   `sg (but tree_sites) true`.  Walks are independent and are combined afterwards (sg_and), and a walk may use the
+   post-conditions another walk proved for the same intermediate result (sg_bind_safe), so it only redoes the
+   no-panic half.
+   Step 2 (Proofs/BlocksTotal4Cur.v, Frame.v, Walk.v, Open.v, Atx.v, Line.v; leaf facts Scan.v, Marker.v, Row.v): the
+   CURSOR walk.  Invariant, for the line L process_line works on (L ends with LF, Blocks_lines_lf_terminated):
+   offset <= |L|, first_nonspace stale or exactly what a rescan computes (CI), self.curline_len = |L|; offset < |L| at
+   the head of every iteration of check_open_blocks_inner and open_new_blocks (the final LF is consumed only by the
+   ATX scanner, and the heading it opens accepts lines, so the loop stops: the one place where the tree invariant of
+   the first walk is needed).  Column-mode advances inside the indent keep the cursor FRESH (partially consumed tabs
+   included).  RESULT, for EVERY input byte string (valid UTF-8 or not) and EVERY option set: none of the sites of
+   cur_sites (pinned below: every `line[..]` index / slice and every usize subtraction of mod.rs on the line and the
+   cursor, the indices of parse_list_marker, the line / cursor sites of try_opening_header / try_opening_row, and ALL
+   sites of table.rs `row`, its from_utf8 included) is reachable: Blocks_total_partial_cursor_sites; together with
+   the tree walk: Blocks_total_partial_sites_all.
+   Step 3 (Proofs/BlocksTotal4Fuel*.v): no OutOfFuel, for all arguments: resolve_refdefs, parse_reference_inline,
+   link_label, split_off_front_matter, list_spaces_loop, finalize, check_container; under the tree invariant W:
+   check_open_blocks, clear_llb_up, reopen_ast_nodes, finalize_up_to, add_child, add_text_to_container,
+   finalize_document, front_matter_prologue (size of the tree <= ps_next; a parent chain is shorter than the tree;
+   finalize keeps the parent of every other node).
+   REMAINING for Blocks_total_full_statement (no whole-parse theorem):
+     fuel          open_new_blocks_loop (2 |L| + 8: every iteration that goes on moves the offset forward — lower
+                   bounds of the scanners are in Proofs/BlocksTotal4Scan.v — except the one that opens an html block,
+                   after which the loop stops, and the table case `Some((container, false, _))` where the container is a
+                   paragraph); parse_desc_list_details / handle_description_list under W; hence process_line.
+     open spine    mod.rs:finalize_borrowed:assert!(ast.open), mod.rs:add_line:assert!(ast.open),
+                   mod.rs:add_text_to_container:self.finalize(self.current).unwrap(),
+                   mod.rs:add_child:self.finalize(parent).unwrap()   (evaluation: Proofs/BlocksTotal4Spine.v)
+     UTF-8         every from_utf8 site except table.rs:row (mod.rs:add_line, handle_alert, handle_footnote,
+                   finalize_borrowed, resolve_reference_link_definitions:content[seeked..], inlines.rs:link_label,
+                   parse_reference_inline clean_url / clean_title, try_inserting_table_header_paragraph)
+     values        mod.rs:add_child:assert!(start_column > 0) (the table callers pass start columns read from the tree),
+                   mod.rs:parse_html_block_prefix:unreachable!() (block_type 1..7 in the tree),
+                   mod.rs:finalize_borrowed: line_number - 1, assert!(pos < content.len()), content.as_bytes()[pos],
+                   table.rs: try_inserting_table_header_paragraph (content[..paragraph_offset], line_offsets[n],
+                   start.line + newlines - 1) and try_opening_header / try_opening_row cell arithmetic,
+                   the sites of the leaf functions that have a refuted totality statement in Props/StrLeaf.v
+                   (remove_trailing_blank_lines on empty content, chop_trailing_hashtags, clean_title),
+                   inlines.rs:peek_char_n: the assert c > 0 (NUL-free content), strings.rs front matter slices. *)
+From V Require Proofs.BlocksTotal4Safe Proofs.BlocksTotal4Cur Proofs.BlocksTotal4Frame Proofs.BlocksTotal4Line
+  Proofs.BlocksTotal4Row Proofs.BlocksTotal4Marker Proofs.BlocksTotal4Scan
+  Proofs.BlocksTotal4Fuel Proofs.BlocksTotal4FuelTree Proofs.BlocksTotal4FuelFin Proofs.BlocksTotal4FuelText.
+
+(* step 1: two walks of the same computation combine; a walk may reuse the post-condition of the tree walk *)
+Theorem Blocks_total_sg_combine : forall A al1 al2 fu1 fu2 (Q1 Q2 : A -> Prop) (r : res A),
+  BlocksTotal4Safe.sg al1 fu1 Q1 r -> BlocksTotal4Safe.sg al2 fu2 Q2 r ->
+  BlocksTotal4Safe.sg (fun s => al1 s && al2 s) (fu1 && fu2) (fun a => Q1 a /\ Q2 a) r.
+Proof. exact (@BlocksTotal4Safe.sg_and). Qed.
+Print Assumptions Blocks_total_sg_combine.
+
+Theorem Blocks_total_sg_reuses_safe : forall A B al fu (r : res A) (k : A -> res B) (P P2 : A -> Prop) (Q : B -> Prop),
+  BlocksTotal2Safe.safe P r -> BlocksTotal4Safe.sg al fu P2 r ->
+  (forall a, r = Ok a -> P a -> P2 a -> BlocksTotal4Safe.sg al fu Q (k a)) -> BlocksTotal4Safe.sg al fu Q (bind r k).
+Proof. exact (@BlocksTotal4Safe.sg_bind_safe). Qed.
+Print Assumptions Blocks_total_sg_reuses_safe.
+
+Theorem Blocks_total_safe_is_sg : forall A (Q : A -> Prop) (r : res A),
+  BlocksTotal2Safe.safe Q r <-> BlocksTotal4Safe.sg (BlocksTotal4Safe.but BlocksTotal2Safe.tree_sites) true Q r.
+Proof. exact (@BlocksTotal4Safe.safe_sg_but). Qed.
+Print Assumptions Blocks_total_safe_is_sg.
+
+(* step 2: the list of cursor / line sites *)
+Theorem Blocks_total_cursor_sites_list :
+  BlocksTotal4Frame.cur_sites =
+  [ "mod.rs:find_first_nonspace:first_nonspace_column - column";
+    "mod.rs:advance_offset:line[self.offset]";
+    "mod.rs:is_not_greentext:line[self.first_nonspace + 1]";
+    "mod.rs:parse_block_quote_prefix:line[self.first_nonspace]";
+    "mod.rs:parse_block_quote_prefix:line[self.offset]";
+    "mod.rs:parse_node_item_prefix:self.first_nonspace - self.offset";
+    "mod.rs:parse_code_block_prefix:self.first_nonspace - self.offset";
+    "mod.rs:parse_code_block_prefix:line[self.first_nonspace]";
+    "mod.rs:parse_code_block_prefix:line[self.offset]";
+    "mod.rs:parse_multiline_block_quote_prefix:line[self.first_nonspace]";
+    "mod.rs:parse_multiline_block_quote_prefix:line[self.offset]";
+    "mod.rs:check_open_blocks_inner:line[self.first_nonspace..]";
+    "mod.rs:detect_alert:line[self.first_nonspace]";
+    "mod.rs:handle_alert:line[title_startpos]";
+    "mod.rs:handle_alert:line[title_startpos..]";
+    "mod.rs:handle_alert:self.first_nonspace - self.offset";
+    "mod.rs:handle_alert:self.curline_len - self.offset";
+    "mod.rs:handle_alert:self.curline_len - self.offset - 1";
+    "mod.rs:detect_multiline_blockquote:line[self.first_nonspace..]";
+    "mod.rs:handle_multiline_blockquote:first_nonspace - offset";
+    "mod.rs:handle_multiline_blockquote:first_nonspace + *matched - offset";
+    "mod.rs:detect_blockquote:line[self.first_nonspace]";
+    "mod.rs:handle_blockquote:self.first_nonspace + 1 - self.offset";
+    "mod.rs:handle_blockquote:line[self.offset]";
+    "mod.rs:detect_atx_heading:line[self.first_nonspace..]";
+    "mod.rs:handle_atx_heading:heading_startpos + *matched - offset";
+    "mod.rs:handle_atx_heading:position(|&c| c == b'#').unwrap()";
+    "mod.rs:handle_atx_heading:line[hashpos]";
+    "mod.rs:handle_atx_heading:level += 1";
+    "mod.rs:detect_code_fence:line[self.first_nonspace..]";
+    "mod.rs:handle_code_fence:line[first_nonspace]";
+    "mod.rs:handle_code_fence:first_nonspace - offset";
+    "mod.rs:handle_code_fence:first_nonspace + *matched - offset";
+    "mod.rs:detect_html_block:line[self.first_nonspace..]";
+    "mod.rs:detect_setext_heading:line[self.first_nonspace..]";
+    "mod.rs:handle_setext_heading:line.len() - 1";
+    "mod.rs:handle_setext_heading:line.len() - 1 - self.offset";
+    "mod.rs:handle_thematic_break:line.len() - 1";
+    "mod.rs:handle_thematic_break:line.len() - 1 - self.offset";
+    "mod.rs:detect_footnote:line[self.first_nonspace..]";
+    "mod.rs:handle_footnote:line[first_nonspace + 2..first_nonspace + matched]";
+    "mod.rs:handle_footnote:self.first_nonspace + *matched - self.offset";
+    "mod.rs:detect_description_list:line[self.first_nonspace..]";
+    "mod.rs:handle_description_list:self.first_nonspace + *matched - self.offset";
+    "mod.rs:handle_description_list:line[self.offset]";
+    "parser/mod.rs:parse_list_marker:line[pos]";
+    "parser/mod.rs:parse_list_marker:line[i]";
+    "parser/mod.rs:parse_list_marker:line[pos] - b'0'";
+    "mod.rs:handle_list:self.first_nonspace + *matched - self.offset";
+    "mod.rs:handle_list:self.column - save_column";
+    "mod.rs:handle_list:line[self.offset]";
+    "mod.rs:add_text_to_container:self.first_nonspace - self.offset";
+    "mod.rs:add_text_to_container:line[self.first_nonspace..]";
+    "table.rs:try_opening_header:line[parser.first_nonspace..]";
+    "table.rs:try_opening_header:line.len() - 1";
+    "table.rs:try_opening_header:line.len() - 1 - parser.offset";
+    "table.rs:try_opening_row:line[parser.first_nonspace..]";
+    "table.rs:try_opening_row:line.len() - 1";
+    "table.rs:try_opening_row:line.len() - 1 - parser.offset";
+    "table.rs:row:string[offset + cell_matched..]";
+    "table.rs:row:string[offset..offset + cell_matched]";
+    "table.rs:row:string[start_offset - 1]";
+    "table.rs:row:offset + cell_matched - 1";
+    "table.rs:row:string[offset..]";
+    "table.rs:row:String::from_utf8(cell).unwrap()" ].
+Proof. reflexivity. Qed.
+Print Assumptions Blocks_total_cursor_sites_list.
+
+(* no cursor / line Panic site is reachable: every input byte string, every option set *)
+Theorem Blocks_total_partial_cursor_sites : forall o x s,
+  In s BlocksTotal4Frame.cur_sites -> parse_blocks o x <> Panic s.
+Proof. exact BlocksTotal4Line.parse_blocks_no_cursor_panic. Qed.
+Print Assumptions Blocks_total_partial_cursor_sites.
+
+(* .. and with the tree walk: 11 + 65 sites *)
+Theorem Blocks_total_partial_sites_all : forall o x s,
+  In s (BlocksTotal2Safe.tree_sites ++ BlocksTotal4Frame.cur_sites) -> parse_blocks o x <> Panic s.
+Proof.
+  intros o x s H. apply in_app_or in H. destruct H as [H|H].
+  - now apply BlocksTotal3Tab.parse_blocks_no_tree_panic_all.
+  - now apply BlocksTotal4Line.parse_blocks_no_cursor_panic.
+Qed.
+Print Assumptions Blocks_total_partial_sites_all.
+
+(* the same as one statement about the result: a Panic of parse_blocks is at none of these sites *)
+Theorem Blocks_total_partial_panic_elsewhere : forall o x s,
+  parse_blocks o x = Panic s ->
+  BlocksTotal4Safe.inl (BlocksTotal2Safe.tree_sites ++ BlocksTotal4Frame.cur_sites) s = false.
+Proof.
+  intros o x s E. destruct (BlocksTotal4Safe.inl _ s) eqn:I; [|reflexivity].
+  apply BlocksTotal4Safe.inl_in in I. exfalso. exact (Blocks_total_partial_sites_all o x s I E).
+Qed.
+Print Assumptions Blocks_total_partial_panic_elsewhere.
+
+(* the line invariant of the cursor walk, per line: from a state with the tree invariant LI, on a line that ends
+   with LF, process_line does not fail at a cursor site *)
+Theorem Blocks_total_partial_process_line_cursor : forall o st line0 s,
+  lf_terminated (norm_line line0) -> BlocksTotal2Walk.LI o st ->
+  In s BlocksTotal4Frame.cur_sites -> process_line o st line0 <> Panic s.
+Proof.
+  intros o st line0 s L I H. eapply BlocksTotal4Safe.sg_no_panic; [apply BlocksTotal4Line.process_line_cur; eassumption | exact H].
+Qed.
+Print Assumptions Blocks_total_partial_process_line_cursor.
+
+(* bricks of the cursor walk, for ALL cursors and lines: a column-mode advance inside the indent keeps the cursor
+   fresh (partially consumed tabs included) *)
+Theorem Blocks_total_partial_advance_columns_fresh : forall c line count,
+  c_offset c <= List.length line -> fresh_fns c line -> count <= c_fnsc c - c_column c ->
+  exists c', advance_offset c line count true = Ok c' /\ fresh_fns c' line
+             /\ c_offset c <= c_offset c' <= c_fns c /\ c_fns c' = c_fns c /\ c_fnsc c' = c_fnsc c
+             /\ c_indent c' = c_indent c /\ c_blank c' = c_blank c /\ c_tbkp c' = c_tbkp c
+             /\ c_column c' = c_column c + count.
+Proof. exact BlocksTotal4Cur.adv_cols_in. Qed.
+Print Assumptions Blocks_total_partial_advance_columns_fresh.
+
+(* table.rs `row` and `matches` are total: every byte string, both spoiler settings *)
+Theorem Blocks_total_partial_row_total : forall s sp, exists r, row s sp = Ok r.
+Proof. exact BlocksTotal4Row.row_total. Qed.
+Print Assumptions Blocks_total_partial_row_total.
+
+Theorem Blocks_total_partial_table_matches_total : forall s sp, exists b, table_matches s sp = Ok b.
+Proof. exact BlocksTotal4Row.table_matches_total. Qed.
+Print Assumptions Blocks_total_partial_table_matches_total.
+
+(* parse_list_marker on a line that ends with LF *)
+Theorem Blocks_total_partial_list_marker_total : forall line pos ip,
+  lf_terminated line -> pos < List.length line -> exists r, ListMarker.parse_list_marker line pos ip = Ok r.
+Proof. exact BlocksTotal4Marker.parse_list_marker_total. Qed.
+Print Assumptions Blocks_total_partial_list_marker_total.
+
+Theorem Blocks_total_partial_list_marker_inside : forall line pos ip n l,
+  ListMarker.parse_list_marker line pos ip = Ok (Some (n, l)) -> 1 <= n /\ pos + n < List.length line.
+Proof. exact BlocksTotal4Marker.parse_list_marker_inside. Qed.
+Print Assumptions Blocks_total_partial_list_marker_inside.
+
+(* step 3: fuel.  For all arguments: *)
+Theorem Blocks_total_partial_fuel_refdefs : forall fold m content, resolve_refdefs fold m content <> OutOfFuel.
+Proof. exact BlocksTotal4Fuel.resolve_refdefs_fuel. Qed.
+Print Assumptions Blocks_total_partial_fuel_refdefs.
+
+Theorem Blocks_total_partial_fuel_reference_inline : forall fold m s, parse_reference_inline fold m s <> OutOfFuel.
+Proof. exact BlocksTotal4Fuel.parse_reference_inline_fuel. Qed.
+Print Assumptions Blocks_total_partial_fuel_reference_inline.
+
+Theorem Blocks_total_partial_fuel_front_matter_split : forall s d, split_off_front_matter s d <> OutOfFuel.
+Proof. exact BlocksTotal4Fuel.split_off_front_matter_fuel. Qed.
+Print Assumptions Blocks_total_partial_fuel_front_matter_split.
+
+Theorem Blocks_total_partial_fuel_list_spaces : forall st line save, list_spaces_loop 8 st line save <> OutOfFuel.
+Proof. exact BlocksTotal4Fuel.list_spaces_loop_fuel. Qed.
+Print Assumptions Blocks_total_partial_fuel_list_spaces.
+
+Theorem Blocks_total_partial_fuel_finalize : forall o st id, finalize o st id <> OutOfFuel.
+Proof. exact BlocksTotal4Fuel.finalize_fuel. Qed.
+Print Assumptions Blocks_total_partial_fuel_finalize.
+
+(* under the tree invariant W (identifiers pairwise distinct and below ps_next): the loops that walk the tree *)
+Theorem Blocks_total_partial_tree_size : forall o st,
+  BlocksTotal2Tree.W o st -> BlocksTotal4FuelTree.size (ps_root st) <= ps_next st.
+Proof. exact BlocksTotal4FuelTree.W_size. Qed.
+Print Assumptions Blocks_total_partial_tree_size.
+
+Theorem Blocks_total_partial_fuel_check_open_blocks : forall o st line,
+  BlocksTotal2Tree.W o st -> check_open_blocks o st line <> OutOfFuel.
+Proof. exact BlocksTotal4FuelTree.check_open_blocks_fuel. Qed.
+Print Assumptions Blocks_total_partial_fuel_check_open_blocks.
+
+Theorem Blocks_total_partial_fuel_clear_llb_up : forall o st id,
+  BlocksTotal2Tree.W o st -> clear_llb_up (S (ps_next st)) st id <> OutOfFuel.
+Proof. exact BlocksTotal4FuelTree.clear_llb_up_fuel. Qed.
+Print Assumptions Blocks_total_partial_fuel_clear_llb_up.
+
+Theorem Blocks_total_partial_fuel_reopen : forall o st id,
+  BlocksTotal2Tree.W o st -> reopen_ast_nodes (S (ps_next st)) st id <> OutOfFuel.
+Proof. exact BlocksTotal4FuelTree.reopen_ast_nodes_fuel. Qed.
+Print Assumptions Blocks_total_partial_fuel_reopen.
+
+Theorem Blocks_total_partial_fuel_finalize_up_to : forall o st target site,
+  BlocksTotal2Tree.W o st -> finalize_up_to (S (ps_next st)) o st target site <> OutOfFuel.
+Proof. exact BlocksTotal4FuelFin.finalize_up_to_fuel. Qed.
+Print Assumptions Blocks_total_partial_fuel_finalize_up_to.
+
+Theorem Blocks_total_partial_fuel_add_child : forall o st parent v col,
+  BlocksTotal2Tree.W o st -> add_child o st parent v col <> OutOfFuel.
+Proof. exact BlocksTotal4FuelFin.add_child_fuel. Qed.
+Print Assumptions Blocks_total_partial_fuel_add_child.
+
+Theorem Blocks_total_partial_fuel_finalize_document : forall o st,
+  BlocksTotal2Tree.W o st -> finalize_document o st <> OutOfFuel.
+Proof. exact BlocksTotal4FuelFin.finalize_document_fuel. Qed.
+Print Assumptions Blocks_total_partial_fuel_finalize_document.
+
+Theorem Blocks_total_partial_fuel_add_text_to_container : forall o st c lmc line,
+  BlocksTotal2Tree.W o st -> add_text_to_container o st c lmc line <> OutOfFuel.
+Proof. exact BlocksTotal4FuelText.add_text_to_container_fuel. Qed.
+Print Assumptions Blocks_total_partial_fuel_add_text_to_container.
+
+Theorem Blocks_total_partial_fuel_front_matter_prologue : forall o st s,
+  BlocksTotal2Tree.W o st -> front_matter_prologue o st s <> OutOfFuel.
+Proof. exact BlocksTotal4FuelText.front_matter_prologue_fuel. Qed.
+Print Assumptions Blocks_total_partial_fuel_front_matter_prologue.
+
+(* step 4 (Proofs/BlocksTotal4Spine.v): the open-spine invariant, EVALUATED (not proved).  The candidate of the third
+   round (`self.current and its ancestors are open, each is the last child of its parent, every other open node is a
+   TableRow / TableCell`) is FALSE between lines: Blocks_total_spine_candidate_refuted gives four documents — a
+   description list (`t` / `: d`: the DescriptionTerm and the paragraph moved under it stay open for ever), a
+   multiline block quote and a multiline alert (the paragraph under the closed BlockQuote stays open: only the last
+   child of the quote and the quote are finalized), and a table with a preface paragraph (built with Ast::new, never
+   finalized).  None of them leads to a Panic; the nodes are never finalized in comrak either (harness op `blocks`
+   shows them open at the end).  With every extension off the candidate holds on the whole corpus.
+   CORRECTED invariant between lines (spine_ok2), which holds after every line of 88 hand-written and 400 generated
+   documents under five option sets (Blocks_total_spine_corrected_on_corpus; 7000 more documents evaluated outside
+   the build): self.current is in the tree; it and all its ancestors are open; each is the last child of its parent;
+   every open node ALL of whose ancestors are open and which lies on the right edge of the tree is on that spine or is
+   a TableRow / TableCell.  Inside a line, at the entry of open_new_blocks (P1): the last matched container is in the
+   tree, the chain root..last_matched_container is open and consists of last children, it is self.current or an
+   ancestor of it; at the head of every iteration of open_new_blocks and at the entry of add_text_to_container (P2):
+   the chain root..container is open, container is on the right edge, self.current = last_matched_container or the
+   path below last_matched_container down to self.current is open, no node finalize_up_to will close is container or
+   an ancestor of it.  For mod.rs:add_child:self.finalize(parent).unwrap(): the Document accepts every kind add_child
+   is called with except Item, and an Item is only added under a List (document_accepts_add_child_kinds). *)
+From V Require Proofs.BlocksTotal4Spine Gen.Nodes.
+
+Theorem Blocks_total_spine_candidate_refuted :
+  BlocksTotal4Spine.run_doc BlocksTotal4Spine.o_all_ng BlocksTotal4Spine.spine_ok BlocksTotal4Spine.doc_desc = BlocksTotal4Spine.FailLine 2 /\
+  BlocksTotal4Spine.run_doc BlocksTotal4Spine.o_all_ng BlocksTotal4Spine.spine_ok BlocksTotal4Spine.doc_mbq = BlocksTotal4Spine.FailLine 3 /\
+  BlocksTotal4Spine.run_doc BlocksTotal4Spine.o_all_ng BlocksTotal4Spine.spine_ok BlocksTotal4Spine.doc_alert = BlocksTotal4Spine.FailLine 3 /\
+  BlocksTotal4Spine.run_doc BlocksTotal4Spine.o_tab BlocksTotal4Spine.spine_ok BlocksTotal4Spine.doc_preface = BlocksTotal4Spine.FailLine 3.
+Proof.
+  exact (conj (proj1 BlocksTotal4Spine.candidate_refuted_description_list)
+        (conj (proj1 BlocksTotal4Spine.candidate_refuted_multiline_block_quote)
+        (conj (proj1 BlocksTotal4Spine.candidate_refuted_multiline_alert)
+              (proj1 BlocksTotal4Spine.candidate_refuted_table_preface)))).
+Qed.
+Print Assumptions Blocks_total_spine_candidate_refuted.
+
+Theorem Blocks_total_spine_corrected_on_corpus :
+  BlocksTotal4Spine.failures BlocksTotal4Spine.o_all BlocksTotal4Spine.spine_ok2 BlocksTotal4Spine.hand_corpus = [] /\
+  BlocksTotal4Spine.failures BlocksTotal4Spine.o_all_ng BlocksTotal4Spine.spine_ok2 BlocksTotal4Spine.hand_corpus = [] /\
+  BlocksTotal4Spine.failures BlocksTotal4Spine.o_tab BlocksTotal4Spine.spine_ok2 BlocksTotal4Spine.hand_corpus = [] /\
+  BlocksTotal4Spine.failures BlocksTotal4Spine.o_none BlocksTotal4Spine.spine_ok2 BlocksTotal4Spine.hand_corpus = [] /\
+  BlocksTotal4Spine.failures BlocksTotal4Spine.o_all BlocksTotal4Spine.spine_ok2 BlocksTotal4Spine.gen_corpus = [] /\
+  BlocksTotal4Spine.failures BlocksTotal4Spine.o_all_ng BlocksTotal4Spine.spine_ok2 BlocksTotal4Spine.gen_corpus = [] /\
+  BlocksTotal4Spine.failures BlocksTotal4Spine.o_all_fm BlocksTotal4Spine.spine_ok2 BlocksTotal4Spine.gen_corpus = [].
+Proof.
+  exact (conj BlocksTotal4Spine.corrected_hand_all (conj BlocksTotal4Spine.corrected_hand_all_ng
+        (conj BlocksTotal4Spine.corrected_hand_tab (conj BlocksTotal4Spine.corrected_hand_none
+        (conj BlocksTotal4Spine.corrected_gen_all (conj BlocksTotal4Spine.corrected_gen_all_ng
+              BlocksTotal4Spine.corrected_gen_all_fm)))))).
+Qed.
+Print Assumptions Blocks_total_spine_corrected_on_corpus.
+
+Theorem Blocks_total_document_accepts_add_child_kinds :
+  forallb (V.Gen.Nodes.can_contain KDocument) BlocksTotal4Spine.add_child_kinds = true.
+Proof. exact BlocksTotal4Spine.document_accepts_add_child_kinds. Qed.
+Print Assumptions Blocks_total_document_accepts_add_child_kinds.
